@@ -1,13 +1,16 @@
 """Worker for C16: several networks imported in ONE fresh process, in a given order.
 
     python -m vf.drv.p2p_multi JOB.json        (JOB: {"order": [symbols], "drive": [symbols], "native": [symbols],
-                                                      "cases": [records of MC_P2PReplay], "tripped": [[name, call], ..]})
+                                                      "cases": [records of MC_P2PReplay], "tripped": [[name, call], ..],
+                                                      "sessions": {"alphabet": .., "sessions": [records of MC_P2PSession]}})
 
 The networks of "order" are imported first, all of them, in that order (whatever the library shares between
 networks - caches, registries - is then in the state this order produces).  Then every case (messages that carry
 headers / blocks / transactions) is executed on each network of "drive" with drv.p2p.check_msg_record: the spec's
 bytes, the parsed values, re-packing, and the parsed objects being instances of THAT network's block / tx classes.
 Networks in "native" have a header format of their own: only the format-independent check.
+The sessions (drv.p2p.run_session: one codec, long-lived objects) are executed on every network of "drive" except BTC,
+which the parent process covers.
 Prints one JSON object: {"fails": [[key, what, detail], ...], "executed": n, "tripped": [...], "skipped": n}.
 """
 from __future__ import annotations
@@ -34,6 +37,15 @@ def main(path):
                         seen.add(key)
                         detail["import_order"] = job["order"]
                         fails.append([key, what, detail])
+            sj = job.get("sessions")
+            if sj and sym != "BTC":
+                for se in sj["sessions"]:
+                    n += 1
+                    for key, what, detail in D.run_session(sj["alphabet"], se, sym):
+                        if key not in seen:
+                            seen.add(key)
+                            detail["import_order"] = job["order"]
+                            fails.append([key, what, detail])
         if sym in job.get("native", []):
             n += 1
             for key, what, detail in D.check_native_headers(sym):
